@@ -27,8 +27,12 @@ let () =
          (match rest with
           | "R" :: rest ->
             let (rw, rest) = take (2 * total) rest in
-            let rwa = Array.of_list (List.map ios rw) in
-            let rlo v = eighth rwa.(2 * int_of_n v) and rhi v = eighth rwa.(2 * int_of_n v + 1) in
+            (* a real weight token is n (= n/8) or n@k (= n/2^k) *)
+            let dy s = match String.index_opt s '@' with
+              | Some i -> qc_of (z_of_int (ios (String.sub s 0 i))) (pos_of_int (1 lsl (ios (String.sub s (i + 1) (String.length s - i - 1)))))
+              | None -> eighth (ios s) in
+            let rwa = Array.of_list (List.map dy rw) in
+            let rlo v = rwa.(2 * int_of_n v) and rhi v = rwa.(2 * int_of_n v + 1) in
             (match rest with
              | "E" :: rest ->
                let (ew, _) = take (4 * total) rest in
